@@ -65,17 +65,24 @@ func runSLIMIT(e *Env) (*Summary, error) {
 	saved := kvql.PlanBatchSize
 	defer func() { kvql.PlanBatchSize = saved }()
 	// limits beyond 2^31 / 2^32: offsets and counts are Go ints
-	{
+	type limCase struct {
+		txt  string
+		s, n int
+	}
+	// numbers written with leading zeros are decimal (`limit 010` = 10 rows), on a store large enough to tell 8 from 10
+	zeroLims := []limCase{{" limit 010", 0, 10}, {" limit 009", 0, 9}, {" limit 003, 011", 3, 11}, {" limit 08, 2", 8, 2}, {" limit 010, 010", 10, 10}, {" limit 00, 0012", 0, 12}}
+	for round, lims := range [][]limCase{nil, zeroLims} {
 		kvql.PlanBatchSize = 3
-		kvs := slimitStore(7)
-		for _, lim := range []struct {
-			txt  string
-			s, n int
-		}{{" limit 4294967296, 5", 4294967296, 5}, {" limit 0, 4294967296", 0, 4294967296}, {" limit 4294967296", 0, 4294967296}, {" limit 2147483648", 0, 2147483648},
+		size := []int{7, 13}[round]
+		kvs := slimitStore(size)
+		if lims == nil {
+			lims = []limCase{{" limit 4294967296, 5", 4294967296, 5}, {" limit 0, 4294967296", 0, 4294967296}, {" limit 4294967296", 0, 4294967296}, {" limit 2147483648", 0, 2147483648},
 			{" limit 2, 2147483649", 2, 2147483649}, {" limit 2147483648, 1", 2147483648, 1}, {" limit 1, 4294967297", 1, 4294967297},
 			// "everything from row s on": offset + count passes the largest int
 			{" limit 1, 9223372036854775807", 1, 9223372036854775807}, {" limit 3, 9223372036854775805", 3, 9223372036854775805}, {" limit 9223372036854775807, 1", 9223372036854775807, 1},
-			{" limit 9223372036854775806, 9223372036854775807", 9223372036854775806, 9223372036854775807}, {" limit 2, 9223372036854775806", 2, 9223372036854775806}, {" limit 0, 9223372036854775807", 0, 9223372036854775807}} {
+			{" limit 9223372036854775806, 9223372036854775807", 9223372036854775806, 9223372036854775807}, {" limit 2, 9223372036854775806", 2, 9223372036854775806}, {" limit 0, 9223372036854775807", 0, 9223372036854775807}}
+		}
+		for _, lim := range lims {
 			for _, sq := range slimitQueries {
 				for _, batch := range []bool{false, true} {
 					base := runStatement(sq.q, NewRefStore(kvs), batch, true)
@@ -96,7 +103,7 @@ func runSLIMIT(e *Env) (*Summary, error) {
 						have = strings.Join(rowsList(got), " ; ")
 					}
 					if have != want {
-						col.Find(Finding{Kind: "property", Group: "SLIMIT", Check: "limit-is-slice-huge-" + sq.kind, Case: fmt.Sprintf("%s%s  [store size 7, batch size 3, batch=%v]", sq.q, lim.txt, batch),
+						col.Find(Finding{Kind: "property", Group: "SLIMIT", Check: "limit-is-slice-huge-" + sq.kind, Case: fmt.Sprintf("%s%s  [store size %d, batch size 3, batch=%v]", sq.q, lim.txt, size, batch),
 							Line: "SLIMIT " + hxs(sq.q+lim.txt), Engine: have, Model: want, Seed: e.Seed, Index: 0, Properties: []string{"C08"}})
 					}
 				}
@@ -104,10 +111,10 @@ func runSLIMIT(e *Env) (*Summary, error) {
 			st := NewRefStore(kvs)
 			del := runStatement("delete where key ^= 'k'"+lim.txt, st, true, true)
 			left := len(st.Pairs())
-			wantLeft := 7 - max(0, min(lim.n, 7-min(lim.s, 7)))
+			wantLeft := size - max(0, min(lim.n, size-min(lim.s, size)))
 			col.Eval(1)
 			if del.Outcome() != "ok" || left != wantLeft {
-				col.Find(Finding{Kind: "property", Group: "SLIMIT", Check: "delete-limit-huge", Case: "delete where key ^= 'k'" + lim.txt + "  [store size 7]",
+				col.Find(Finding{Kind: "property", Group: "SLIMIT", Check: "delete-limit-huge", Case: "delete where key ^= 'k'" + lim.txt + fmt.Sprintf("  [store size %d]", size),
 					Line: "SLIMIT " + hxs("delete where key ^= 'k'"+lim.txt), Engine: fmt.Sprintf("%s, %d pairs left", del.Outcome(), left), Model: fmt.Sprintf("%d pairs left", wantLeft), Seed: e.Seed, Properties: []string{"C08", "C11"}})
 			}
 		}
